@@ -10,6 +10,7 @@ pub mod c09;
 pub mod c12;
 pub mod c13;
 pub mod c15;
+pub mod c19;
 pub mod common;
 
 use crate::engine::PropertySpec;
@@ -28,8 +29,9 @@ pub fn spec(id: &str) -> Option<PropertySpec> {
         "C12" => Some(c12::spec()),
         "C13" => Some(c13::spec()),
         "C15" => Some(c15::spec()),
+        "C19" => Some(c19::spec()),
         _ => None,
     }
 }
 
-pub const ALL: [&str; 12] = ["C01", "C02", "C03", "C04", "C05", "C06", "C07", "C08", "C09", "C12", "C13", "C15"];
+pub const ALL: [&str; 13] = ["C01", "C02", "C03", "C04", "C05", "C06", "C07", "C08", "C09", "C12", "C13", "C15", "C19"];
